@@ -132,7 +132,15 @@ def run(rep, f, c, rule):
             cal = (b.callee(t) or '').rsplit('::', 1)[-1]
             if cal.startswith('write_'):
                 got[cal] = got.get(cal, ISet()) | (ra.reach_of(bi) & dom)
-        ok = not ra.mixed and got == routes
+        # every value goes to exactly one writer whose own domain contains it (directly, or through the other dispatcher)
+        accepts = {'write_ascii': ISet.of((0, 0x7F)), 'write_mid_bmp': UTF8_WRITERS['write_mid_bmp'][0], 'write_upper_bmp': UTF8_WRITERS['write_upper_bmp'][0],
+                   'write_bmp_excl_ascii': ISet.of((0x80, 0xD7FF), (0xE000, 0xFFFF)), 'write_bmp': ISet.of((0, 0xD7FF), (0xE000, 0xFFFF))}
+        union = ISet()
+        overlap = False
+        for k_, v_ in got.items():
+            overlap = overlap or bool(union & v_)
+            union = union | v_
+        ok = not ra.mixed and bool(got) and all(k_ in accepts and k_ != w and not (v_ - accepts[k_]) for k_, v_ in got.items()) and union == dom and not overlap
         rep.ob(rule + '.route', fn, ok, 'routing by value differs from the writers\' domains: %r' % {k: repr(v) for k, v in got.items()}, sp_str(b.raw['span']),
                {k: repr(v) for k, v in got.items()}, c)
         n += 1
